@@ -1,17 +1,23 @@
 """C19 -- a calculation either completes or leaves its data bases untouched.
 
-1. TLC explores Calculator.tla: every profile x fault point x protocol (intended / transcribed);
-   Atomic and Exact are invariants of the intended protocol; the terminal states are the scenario
-   catalogue (with the predictions of the transcribed roll-backs).
+1. TLC explores Calculator.tla: every profile (public entry point x option class) x fault point x
+   protocol (intended / transcribed); Atomic, Exact and Honest are invariants of the intended
+   protocol; the terminal states are the scenario catalogue (with the predictions of the transcribed
+   roll-backs, and the documented numbers of output variables per data base).
 2. harness calc_run executes every bound scenario on the real calculators (natural failing inputs
    and faults injected through the guarded hooks), with plain / clashing prior contents, followed by
    a second call on the same objects after every failure, and logs complete before/after projections.
 3. TLC (TraceCalculator) judges Atomic / Exact on every recorded call.
+
+Development help: C19_ONLY=<profile>[,<profile>...] restricts the conformance run (evidence is then
+not representative; never set by vcheck).
 """
 import json, os
 import vlib
 from vlib import Check, Broken, log
 from checks import session_common
+
+INJECTED = ("after_check", "after_preprocess", "after_run")
 
 
 def run(tier):
@@ -19,33 +25,46 @@ def run(tier):
     vlib.build_lib()
     res = vlib.run_tlc("Calculator", "MC_Calculator.cfg", workers=4, timeout=600)
     if res.violation:
-        raise Broken("Calculator.tla: the intended protocol violates Atomic/Exact:\n" + res.violation)
+        raise Broken("Calculator.tla: the intended protocol violates Atomic/Exact/Honest:\n" + res.violation)
     ck.cov["states"] = res.distinct
     ck.cov["transitions"] = res.generated
     term = res.emitted
-    predicted = sorted(set((t["profile"], t["fault"]) for t in term if t["proto"] == "transcribed" and not t["clean"] and t["ret"] == "fail"))
-    ck.cov["model_predicted_nonatomic_pairs_of_transcribed_rollbacks"] = ["%s/%s" % p for p in predicted]
+    tr = [t for t in term if t["proto"] == "transcribed"]
+    pred_nonatomic = sorted(set((t["profile"], t["fault"]) for t in tr if t["ret"] == "fail" and not t["clean"]))
+    pred_inexact = sorted(set((t["profile"], t["fault"]) for t in tr if t["ret"] == "ok" and not t["exact"]))
+    pred_dishonest = sorted(set((t["profile"], t["fault"]) for t in tr if t["ret"] == "ok" and not t["honest"]))
+    ck.cov["model_predicted_nonatomic_pairs_of_transcribed_rollbacks"] = ["%s/%s" % p for p in pred_nonatomic]
+    ck.cov["model_predicted_inexact_successes_of_transcription"] = ["%s/%s" % p for p in pred_inexact]
+    ck.cov["model_predicted_failures_reported_as_success"] = ["%s/%s" % p for p in pred_dishonest]
+    profiles = sorted(set(t["profile"] for t in term))
+    unbound = sorted(set(t["profile"] for t in term if not t["bound"]))
+    ck.cov["profiles"] = len(profiles)
+    ck.cov["profiles_unbound"] = unbound
+    only = [x for x in os.environ.get("C19_ONLY", "").split(",") if x]
     # scenario list
     scen = []
     seen = set()
-    priors = ["plain", "clash"] if tier == "thorough" else ["plain", "clash"]
-    for t in term:
-        if not t["bound"]:
+    priors = ["plain", "clash"]
+    info = {}
+    for t in sorted(term, key=lambda t: (t["profile"], t["fault"], t["proto"])):
+        if not t["bound"] or (only and t["profile"] not in only):
             continue
+        info[t["profile"]] = t
         key = (t["profile"], t["fault"])
         if key in seen:
             continue
         seen.add(key)
         f = t["fault"]
-        if f in ("check", "run"):
+        if f in ("check", "run", "check_r1", "run_r1"):
             variants = t["variants"]            # natural failures only
         elif f == "postprocess":
             continue                             # no injection point inside _postprocess
         else:
             variants = t["setups"]
-        for v in variants:
+        for v in sorted(variants):
             for pr in priors:
-                scen.append({"id": len(scen) + 1, "profile": t["profile"], "fault": f, "variant": v, "prior": pr})
+                scen.append({"id": len(scen) + 1, "profile": t["profile"], "fault": f, "variant": v, "prior": pr,
+                             "exp_in": t["exp_in"], "exp_out": t["exp_out"], "noerr": t["noerr"]})
     if not scen:
         raise Broken("no scenario emitted")
     sp = os.path.join(ck.work, "scen.ndjson")
@@ -65,32 +84,77 @@ def run(tier):
         if crashes > 30:
             raise Broken("more than 30 crashing scenarios")
     recs = vlib.read_ndjson(op)
+    if os.environ.get("C19_KEEPLOG"):
+        import shutil
+        shutil.copy(op, os.environ["C19_KEEPLOG"])
     jr = vlib.run_tlc("TraceCalculator", "TraceCalculator.cfg", workers=1, env={"CALCLOG": op}, timeout=900)
     if jr.violation or "NOT-ALL-EXAMINED" in jr.stdout:
         raise Broken("TraceCalculator did not examine the whole log:\n" + (jr.violation or jr.stdout[-2000:]))
     nfail = nok = 0
     by_profile = {}
+    observed_nonatomic = set()
+    binding_problems = []
+    accepted = set()     # inputs offered as natural failures that the entry point accepts (judged as successes)
     for r in recs:
         if "crash" in r:
             continue
-        by_profile.setdefault(r["scen"]["profile"], [0, 0])
+        sc = r["scen"]
+        by_profile.setdefault(sc["profile"], [0, 0])
         if r["ret"] == "ok":
-            nok += 1; by_profile[r["scen"]["profile"]][0] += 1
+            nok += 1; by_profile[sc["profile"]][0] += 1
         else:
-            nfail += 1; by_profile[r["scen"]["profile"]][1] += 1
+            nfail += 1; by_profile[sc["profile"]][1] += 1
+        # self-checks of the binding (mistakes of the harness / transcription, never violations)
+        if not r["second"] and sc["fault"] in INJECTED and info[sc["profile"]]["hooks"] and not r["struck"]:
+            binding_problems.append("scenario %s: the armed fault was never reached" % json.dumps(sc))
+        if not r["second"] and sc["fault"] == "none" and r["addvar_visits"] < info[sc["profile"]]["nreg"]:
+            # the code no longer registers what the profile transcribes: reported as a disagreement (the
+            # roll-back cannot see a variable that was not registered)
+            ck.disagree({"kind": "bookkeeping", "profile": sc["profile"], "variant": sc["variant"], "prior": sc["prior"],
+                         "addvar_calls": r["addvar_visits"], "registered_groups_in_profile": info[sc["profile"]]["nreg"]}, r)
+        if not r["second"] and sc["fault"] in ("check", "run") and r["ret"] == "ok" and not sc["noerr"]:
+            accepted.add("%s/%s/%s" % (sc["profile"], sc["fault"], sc["variant"]))
+    if only or os.environ.get("C19_SUMMARY"):       # development summary
+        agg = {}
+        for e in jr.emitted:
+            r = recs[e["idx"] - 1]
+            sc = r["scen"]
+            key = (sc["profile"], sc["fault"], sc["variant"], "2nd" if r.get("second") else "1st", r.get("ret") or "CRASH%s" % r.get("crash"), "+".join(sorted(e["fails"])))
+            agg.setdefault(key, []).append(sc["prior"])
+        for key in sorted(agg):
+            log("   REJ %s  priors=%s" % (" ".join(key), ",".join(agg[key])))
+        log("   per profile ok/fail: %s" % by_profile)
     for e in jr.emitted:
         r = recs[e["idx"] - 1]
         sc = r["scen"]
+        fails = sorted(e["fails"])
         rec = {"kind": "calc", "profile": sc["profile"], "fault": sc["fault"], "variant": sc["variant"],
-               "prior": sc["prior"], "second_call": r.get("second", False), "fails": sorted(e["fails"])}
+               "prior": sc["prior"], "second_call": r.get("second", False), "fails": fails, "sig": "+".join(fails)}
+        if any(f.startswith("atomic") for f in fails):
+            observed_nonatomic.add((sc["profile"], sc["fault"]))
         ck.disagree(rec, r)
-    for p, (a, b) in by_profile.items():
-        if a == 0:
-            raise Broken("vacuous: profile %s never completed successfully" % p)
-        if b == 0:
-            raise Broken("vacuous: profile %s never failed" % p)
+    if binding_problems and not ck.violations:
+        raise Broken("\n".join(binding_problems[:5]))
+    if not only and not ck.violations:
+        for p in profiles:
+            if p in unbound:
+                continue
+            a, b = by_profile.get(p, (0, 0))
+            if a == 0:
+                raise Broken("vacuous: profile %s never completed successfully" % p)
+            if b == 0 and any(sc["profile"] == p and sc["fault"] != "none" for sc in scen):
+                raise Broken("vacuous: profile %s never failed" % p)
+    ck.cov["natural_variants_accepted_by_the_code"] = sorted(accepted)
+    if accepted:
+        log("[C19] inputs offered as failing but accepted (judged as successes): %s" % ", ".join(sorted(accepted)))
+    # predictions of the transcribed protocol against the replay (informative: the verdicts above come from the judge)
+    ck.cov["predicted_nonatomic_confirmed_by_replay"] = sorted("%s/%s" % p for p in observed_nonatomic if p in set(pred_nonatomic))
+    ck.cov["nonatomic_in_replay_not_predicted"] = sorted("%s/%s" % p for p in observed_nonatomic if p not in set(pred_nonatomic))
     # cross-module sessions (Session.tla): calculators interleaved with Db edits, copies, save + reload
-    ss = session_common.run_sessions(ck, tier)
+    if only:
+        ss = {"rejected": [], "crashes": [], "steps": 0, "sessions": 0, "states": 0, "transitions": 0}
+    else:
+        ss = session_common.run_sessions(ck, tier)
     for rec, fails, ses in ss["rejected"]:
         ck.disagree({"kind": "session-step", "op": rec["op"], "fails": fails, "history": [h["op"]["name"] for h in ses["hist"]]},
                     {"session": [h["op"]["name"] for h in ses["hist"]], "record": rec})
@@ -107,9 +171,15 @@ def run(tier):
     ck.cov["rule"] = ("scenario = profile x fault point (natural failing input or injected fault) x prior content; each executed on "
                       "the real calculator, plus a second call after each failure; each call judged by TLC on complete before/after projections")
     for r in recs[:: max(1, len(recs) // 3)][:3]:
+        if "crash" in r:
+            continue
         ck.sample({"scen": r["scen"], "ret": r["ret"], "out_pre": [("".join(c["name"]), c["role"]) for c in r["out_pre"]["cols"]],
                    "out_post": [("".join(c["name"]), c["role"]) for c in r["out_post"]["cols"]]})
     ck.assumptions += ["content compared through a 64-bit hash of the bit patterns of each column",
-                       "faults inside _postprocess are explored on the model only (no injection point)"]
-    log("[C19] %d scenarios, %d calls (%d ok, %d failed), %d rejected by TLC" % (len(scen), len(recs), nok, nfail, len(jr.emitted)))
+                       "faults inside _postprocess are explored on the model only (no injection point)",
+                       "entry points without an error code (krigtest, global_arithmetic, global_kriging) are classified from their "
+                       "result structure; both outcomes require unchanged data bases for them",
+                       "profiles without binding (model only): " + (", ".join(unbound) or "none")]
+    log("[C19] %d profiles (%d unbound), %d scenarios, %d calls (%d ok, %d failed), %d rejected by TLC"
+        % (len(profiles), len(unbound), len(scen), len(recs), nok, nfail, len(jr.emitted)))
     return ck.finish()
